@@ -103,7 +103,7 @@ Why ==
     [] OTHER -> {"unexpected-event"}
 
 Invs == << <<"TypeOK", TypeOK>>, <<"DepsFirst", DepsFirst>>, <<"WorkerBound", WorkerBound>>, <<"NoLostSignal", NoLostSignal>>,
-           <<"NoRace", NoRace>>, <<"Resolved", Resolved>>, <<"KeepGoing", KeepGoing>>, <<"NeverBelowFailure", NeverBelowFailure>>,
+           <<"NoRace", NoRace>>, <<"Resolved", Resolved>>, <<"KeepGoing", KeepGoing>>, <<"KeepGoingExact", KeepGoingExact>>, <<"NeverBelowFailure", NeverBelowFailure>>,
            <<"FailureRecorded", FailureRecorded>> >>
 \* diagnostics instead of halting invariants: every invariant is evaluated in every state of every trace, each
 \* failure is printed with its position, and validation continues with the remaining traces
